@@ -39,6 +39,7 @@ func init() {
 				panic(targetPanic{v: iface{types.Typ[types.String], "sync/atomic: store of nil value into Value"}, site: fr.site()})
 			}
 			(*a[0].(*value)).(structure)[0] = a[1]
+			fr.p.sched.visOps++
 			return nil
 		},
 		"(*sync/atomic.Value).Swap": func(fr *frame, a []value) value {
